@@ -141,6 +141,20 @@ fn aliens() -> Vec<Opd> {
     ]
 }
 
+/// Values congruent to legal ones modulo 2^8, 2^16 and 2^32: a truncating cast placed before a
+/// range check (`as u8`, `as i16`, …) makes them look legal.
+fn wrap_twins(legal: &[i64]) -> Vec<i64> {
+    let mut v = vec![];
+    for l in legal {
+        for m in [1i64 << 8, 1 << 16, 1 << 32] {
+            for k in [-2i64, -1, 1, 2] {
+                v.push(l + k * m);
+            }
+        }
+    }
+    v
+}
+
 pub fn cases(thorough: bool) -> Vec<NCase> {
     let wide = if thorough { 10 } else { 1 };
     let mut out: Vec<NCase> = vec![];
@@ -151,7 +165,21 @@ pub fn cases(thorough: bool) -> Vec<NCase> {
         for pos in 0..base.len() {
             let values: Vec<Opd> = match &base[pos] {
                 Opd::R(_) => (0..32).map(Opd::R).collect(),
-                Opd::K(_) => k_window(&m, pos, wide).into_iter().map(Opd::K).collect(),
+                Opd::K(_) => {
+                    let w = k_window(&m, pos, wide);
+                    // twins of the values of the window the reference accepts in this frame
+                    let legal: Vec<i64> = w
+                        .iter()
+                        .copied()
+                        .filter(|k| {
+                            let mut ops = base.clone();
+                            ops[pos] = Opd::K(*k);
+                            !matches!(isa::assemble(&m, &ops, Core::Full, 0), Verdict::Illegal)
+                        })
+                        .collect();
+                    let picks: Vec<i64> = if legal.len() > 6 { vec![legal[0], legal[1], legal[legal.len() / 2], legal[legal.len() - 2], legal[legal.len() - 1]] } else { legal };
+                    w.into_iter().chain(wrap_twins(&picks)).map(Opd::K).collect()
+                }
                 Opd::P(_, _) => super::c01::PTR_FORMS.iter().map(|(p, mo)| Opd::P(*p, *mo)).collect(),
                 Opd::Q(_, _) => [Ptr::X, Ptr::Y, Ptr::Z].iter().flat_map(|p| range(-70 * wide, 140 * wide).into_iter().map(move |q| Opd::Q(*p, q))).collect(),
             };
@@ -231,7 +259,7 @@ pub fn cases(thorough: bool) -> Vec<NCase> {
     // reduced core: one-word lds/sts
     for dev in ["ATtiny20"] {
         for r in 0..32u8 {
-            for k in range(-10, 0x110).into_iter().chain([0x1000, 0xffff, 0x10000, -(1 << 31), 1 << 40]) {
+            for k in range(-10, 0x110).into_iter().chain([0x1000, 0xffff, 0x10000, -(1 << 31), 1 << 40]).chain(wrap_twins(&[0x40, 0x41, 0x7f, 0x80, 0xbe, 0xbf])) {
                 out.push(NCase { m: "lds".into(), ops: vec![Opd::R(r), Opd::K(k)], tag: "avr8l", device: Some(dev) });
                 out.push(NCase { m: "sts".into(), ops: vec![Opd::K(k), Opd::R(r)], tag: "avr8l", device: Some(dev) });
             }
